@@ -97,9 +97,10 @@ type batchRec struct {
 
 func genFetch(t *rapid.T) Case {
 	c := genCase(t, false)
-	// Thorough tier only, rare (a case moves some 60 MB): a log that answers a very large batch in full,
+	// Thorough tier only, rare - about 1 case in 5000 - (a case moves some 60 MB): a log that answers a very large batch in full,
 	// so that one get-entries body read by the real client exceeds 16 MiB (about 2.5 KB of JSON per entry).
-	if harness.Thorough() && weighted(t, "bigBody", 2999, 1) == 1 {
+	// (two interior values must be hit: rapid favours the ends of a range, so a single "1 in n" draw is not rare)
+	if harness.Thorough() && rapid.IntRange(0, 59).Draw(t, "bigBodyA") == 37 && rapid.IntRange(0, 49).Draw(t, "bigBodyB") == 23 {
 		n := rapid.Int64Range(7000, 7600).Draw(t, "bigBodySize")
 		c = Case{
 			Init: n, Batch: int(n) + rapid.IntRange(0, 3000).Draw(t, "bigBodyBatchExtra"), Fetchers: rapid.IntRange(1, 2).Draw(t, "bigBodyFetchers"),
